@@ -103,3 +103,11 @@ package bungeecord
 
 // ForwardToPlayer must act on the NAMED player: the looked-up player has to be used by the callback.
 //@ uses-param (*bungeeCordMessageResponder).processForwardToPlayer$1 player ; props C26
+
+// The channel the responder answers on: the namespaced "bungeecord:main" for a backend on 1.13 or later (inclusive),
+// the legacy "BungeeCord" below.
+//@ func Channel
+//@   props C26
+//@   at-call GreaterEqual as ge: assert arg0 == protocol && arg1 == version.Minecraft_1_13
+//@   at-call ID as lid: assert called(ge) && !res(ge)
+//@   ensures [modern-from-1.13-inclusive] called(ge) && (res(ge) ==> streq(result, bungeeCordModernChannel)) && (!res(ge) ==> called(lid) && streq(result, res(lid)))
